@@ -1,4 +1,4 @@
-"""Mutation experiments for C05 / C06 (never touches /repo: a scratch worktree /tmp/c05-repo).
+"""Mutation experiments for C05 / C06 (never touches /repo: a scratch worktree, /tmp/c05-repo or $MUT_REPO).
 usage: python3 notes/C05.mutate.py [names...]     (creates /tmp/c05-repo if missing; remove it afterwards with
        git -C /repo worktree remove --force /tmp/c05-repo)"""
 import json
@@ -7,7 +7,7 @@ import subprocess
 import sys
 import time
 
-R = '/tmp/c05-repo'
+R = os.environ.get('MUT_REPO', '/tmp/c05-repo')
 W = os.path.dirname(os.path.dirname(os.path.abspath(__file__)))
 FLEX = 'src/compute/flexbox.rs'
 BLOCK = 'src/compute/block.rs'
@@ -134,10 +134,10 @@ def main():
             for l in p.stdout.split('\n'):
                 if l.strip():
                     print('   ', l[:220])
-            ev = json.load(open(os.path.join(W, 'evidence', pid + '.json')))
+            ev = json.load(open(os.path.join(W, '.work', 'evidence-alt', pid + '.json')))
             c = ev['coverage']
             print('    fingerprints_changed', c.get('fingerprints_changed'), 'disagreements', c.get('disagreements'), 'broken', [b['kind'] + ':' + b['name'][:60] for b in c.get('broken', [])][:4])
-            rd = os.path.join(W, 'evidence', 'replay')
+            rd = os.path.join(W, '.work', 'evidence-alt', 'replay')
             for f in sorted(os.listdir(rd)):
                 if f.startswith(pid + '-'):
                     d = json.load(open(os.path.join(rd, f)))
